@@ -376,6 +376,25 @@ class RunB:
             elif k == 'mutate':
                 src = self.slot(op['ref'])
                 res = ['mutate', self.mutate(src)]
+            elif k == 'setattr':
+                # the caller assigns an attribute of a frame it holds
+                src = self.slot(op['ref'])
+                res = ['skip']
+                if src is not None and src.live is not None:
+                    tgt = src.live
+                    if isinstance(tgt, lib.header.ContentHeader) and \
+                            op.get('on_props'):
+                        tgt = tgt.properties
+                    if hasattr(tgt, op['name']) or op['name'] in getattr(
+                            type(tgt), '__slots__', ()):
+                        src.dirty = True
+                        src.version += 1
+                        self.count(self.fired, 'setattr_on_held_object')
+                        try:
+                            setattr(tgt, op['name'], from_desc(op['v']))
+                            res = ['setattr', op['name']]
+                        except Exception as e:
+                            res = canon_exc(e)
             elif k == 'marshal_slot':
                 src = self.slot(op['ref'])
                 if src is None or src.live is None or not isinstance(
@@ -422,6 +441,7 @@ class RunB:
                         self.in_lib[tid] = False
                     if src.version == v0 and len(self.toggle_seqs) == t0:
                         rec.twin = tw
+                    rec.version = 0 if src.version == v0 else 1
             else:
                 try:
                     self.in_lib[tid] = True
@@ -625,7 +645,8 @@ class RunB:
                 self.probe('cancelled_ops')
             # ---- C12 (2): encode leaves its input exactly as it was
             if 'C12' in props and rec.snap_before is not None and \
-                    not rec.dirty and k in ('marshal', 'enc', 'marshal_slot'):
+                    not rec.version and k in ('marshal', 'enc',
+                                              'marshal_slot'):
                 self.oracle('C12.input_unchanged')
                 if rec.snap_after != rec.snap_before:
                     self.fail('C12', 'mutation',
